@@ -208,7 +208,7 @@ def run(run):
         res.transitions += resc.transitions
         res.obs |= resc.obs
         res.violations += resc.violations
-    resa = engine.product_bfs(step, len(MXA), depth + 1, ctx=("MXA",))
+    resa = engine.product_bfs(step, len(MXA), 4, ctx=("MXA",))
     for v in res.violations + resa.violations:
         if v.diff_class not in classes or len(v.case) < len(classes[v.diff_class].case):
             classes[v.diff_class] = v
